@@ -22,7 +22,7 @@ def main(tier):
                                  'the regex engine is the reference model mirsym/rexmodel.py, not the regex crate',
                                  'keys over {a,b,c} with inner blanks; ASCII only',
                                  'tree-sitter / tag scanner replaced as in C10; verdict independent of the modified flags'],
-                    must_cover=['clean', 'reported', 'rule:all-a', 'rule:has-a', 'rule:one-ab', 'rule:ends-b', 'rule:empty', 'rule:a-then-b'],
+                    must_cover=['clean', 'reported', 'two violating blocks in one file', 'rule:all-a', 'rule:has-a', 'rule:one-ab', 'rule:ends-b', 'rule:empty', 'rule:a-then-b'],
                     min_keys=1)
 
 
